@@ -312,8 +312,10 @@ func (env *specEnv) index(x, i specVal, e *Expr) specVal {
 	case *types.Array:
 		return vc.sv(sel(x.T, i.T), u.Elem())
 	case *types.Map:
-		vcomp, _ := vc.S.mapComps(u)
-		return vc.sv(sel(sel(env.heap(vcomp), x.T), i.T), u.Elem())
+		// Go semantics: reading an absent key (or a nil map) yields the zero value
+		vcomp, dcomp := vc.S.mapComps(u)
+		present := and(not(eq(x.T, "0")), sel(sel(env.heap(dcomp), x.T), i.T))
+		return vc.sv(ite(present, sel(sel(env.heap(vcomp), x.T), i.T), vc.zero(u.Elem())), u.Elem())
 	case *types.Basic:
 		if isString(t) {
 			return ghost("(str_at "+x.T+" "+i.T+")", "Int")
@@ -690,6 +692,15 @@ func (env *specEnv) call(e *Expr) specVal {
 		case "in64":
 			x := env.tr(args[0])
 			return ghost("(and (<= (- 9223372036854775808) "+x.T+") (<= "+x.T+" 9223372036854775807))", "Bool")
+		case "seen":
+			// seen(k): key k has already been yielded by the enclosing map range loop
+			b, ok := env.names["#seen"]
+			if !ok {
+				sfail("seen() outside a map range loop")
+			}
+			comp := vc.S.comps[b.V.T]
+			k := env.tr(args[0])
+			return ghost(sel(env.heap(comp), k.T), "Bool")
 		case "now":
 			// inside old(...): evaluate the argument in the current (post) state
 			c := env.child()
